@@ -11,6 +11,7 @@ import QrlewModel.Model.Clip
 import QrlewModel.Model.DpAgg
 import QrlewModel.Model.PupTree
 import QrlewModel.Model.RelTree
+import QrlewModel.Model.TauKeys
 import QrlewModel.Model.Tau
 import QrlewModel.Model.Rel
 import QrlewModel.Model.Quote
@@ -503,6 +504,20 @@ def runRelTree (c : Json) : Option Json := do
     ("uniq", Json.arr ((RelTree.uniq tree).map Json.bool).toArray),
     ("rows", if relTreeHasLimit tree then Json.null else Json.arr (sorted.map Json.str))])
 
+/-- key release: `Qrlew.TauKeys.releasedKeys` with all ranks tied and noise 0, the threshold read off the real relation -/
+def runTauKeys (c : Json) (aux : Json) : Option Json := do
+  let rowsJ ← (c.getObjVal? "rows").toOption >>= fun a => a.getArr?.toOption
+  let rows : List TauKeys.Pair ← rowsJ.toList.mapM fun r => do
+    let u ← (r.getArrVal? 0).toOption >>= jInt?
+    let k ← (r.getArrVal? 1).toOption >>= jInt?
+    pure (u.toNat, k)
+  let tauF ← (aux.getObjVal? "tau_floor").toOption >>= jFloat?
+  let k ← (aux.getObjVal? "k").toOption >>= jInt?
+  let tau : Int := tauF.toInt64.toInt
+  let released := TauKeys.releasedKeys k.toNat (fun _ => 0) (fun _ => 0) tau rows
+  let sorted := released.toArray.qsort (fun a b => a < b)
+  pure (Json.mkObj [("released", Json.arr (sorted.map fun x => Json.num (JsonNumber.fromInt x)))])
+
 def runLimit (c : Json) : Option Json := do
   let k ← (c.getObjVal? "k").toOption >>= jInt?
   let nU ← (c.getObjVal? "n_units").toOption >>= jInt?
@@ -686,6 +701,7 @@ def handle (line : String) : Json :=
       | "dpagg" => runDpAgg c ((j.getObjVal? "aux").toOption.getD Json.null)
       | "pup" => runPup c
       | "reltree" => runRelTree c
+      | "taukeys" => runTauKeys c ((j.getObjVal? "aux").toOption.getD Json.null)
       | "dpevent" => runDpEvent c
       | "dpquery" => runDpQuery ((j.getObjVal? "aux").toOption.getD Json.null)
       | "rules" => runRules ((j.getObjVal? "aux").toOption.getD Json.null)
